@@ -47,12 +47,24 @@ func c17Alphabet() []c17Patch {
 	s1 := fx.ServiceEntry("s1", "https://example.com/1")
 	s1b := map[string]interface{}{"id": "s1", "type": "Other", "serviceEndpoint": []interface{}{"https://example.com/1b"}, "extra": true}
 	s2 := fx.ServiceEntry("s2", "https://example.com/2")
-	addK := func(ks ...interface{}) string { return j(map[string]interface{}{"action": "add-public-keys", "publicKeys": ks}) }
-	rmK := func(ids ...interface{}) string { return j(map[string]interface{}{"action": "remove-public-keys", "ids": ids}) }
-	addS := func(ss ...interface{}) string { return j(map[string]interface{}{"action": "add-services", "services": ss}) }
-	rmS := func(ids ...interface{}) string { return j(map[string]interface{}{"action": "remove-services", "ids": ids}) }
-	addA := func(us ...interface{}) string { return j(map[string]interface{}{"action": "add-also-known-as", "uris": us}) }
-	rmA := func(us ...interface{}) string { return j(map[string]interface{}{"action": "remove-also-known-as", "uris": us}) }
+	addK := func(ks ...interface{}) string {
+		return j(map[string]interface{}{"action": "add-public-keys", "publicKeys": ks})
+	}
+	rmK := func(ids ...interface{}) string {
+		return j(map[string]interface{}{"action": "remove-public-keys", "ids": ids})
+	}
+	addS := func(ss ...interface{}) string {
+		return j(map[string]interface{}{"action": "add-services", "services": ss})
+	}
+	rmS := func(ids ...interface{}) string {
+		return j(map[string]interface{}{"action": "remove-services", "ids": ids})
+	}
+	addA := func(us ...interface{}) string {
+		return j(map[string]interface{}{"action": "add-also-known-as", "uris": us})
+	}
+	rmA := func(us ...interface{}) string {
+		return j(map[string]interface{}{"action": "remove-also-known-as", "uris": us})
+	}
 	return []c17Patch{
 		{"+k1", addK(k1)}, {"+k1*", addK(k1b)}, {"+k2", addK(k2)}, {"+{k1,k2}", addK(k1, k2)}, {"+{k2,k1*}", addK(k2, k1b)},
 		{"-k1", rmK("k1")}, {"-k9", rmK("k9")}, {"-{k1,k2}", rmK("k1", "k2")},
